@@ -21,6 +21,7 @@ from vt.harness.worker import Inline
 
 PID = "C08"
 RULE = (
+    "[plus a small 'cli_wiring' part: generated `taskiq worker` flag sets parsed by the real WorkerArgs.from_cli and turned into a receiver by the real start_listen(); --no-parse switches argument parsing off, default on] "
     "Hypothesis-generated task signatures (exec'd source so inspect/get_type_hints/DependencyGraph see real "
     "functions): 1-6 parameters, each un-annotated / Any / int / float / str / bool / List[int] / Dict[str,int] / "
     "Optional[int] / pydantic model / dataclass / two factory-built pydantic models that are distinct classes with an identical repr, positional-or-keyword or keyword-only, with or without default, "
@@ -279,3 +280,33 @@ def run_case(c: Dict[str, Any]) -> Outcome:
 SELFTEST_CASES = [{"params": [{"ann": "none", "kwonly": False, "has_default": False, "dep": False, "val": "7", "omit": False, "as_kw": False},
                               {"ann": "int", "kwonly": False, "has_default": False, "dep": False, "val": "5", "omit": False, "as_kw": False}],
                    "validate": True, "codec": "json", "is_async": True}]
+
+
+
+# ---------------------------------------------------------------- CLI wiring: from worker flags to the receiver
+#
+# --no-parse switches argument parsing off, default on.  Flags are parsed with the real WorkerArgs.from_cli and the real start_listen() builds the receiver
+# (a recording subclass whose listen() returns at once).
+
+from vt.harness import cliwire as _cliwire
+
+_parts_core = parts
+_run_core = run_case
+
+
+def parts(tier: str) -> List[Part]:  # type: ignore[no-redef]
+    ps = _parts_core(tier)
+    ps.append(Part("cli_wiring", "given", shards=1, examples=1500 if tier == "thorough" else 150,
+                   strategy=lambda: _cliwire.FLAGS.map(lambda f: {"flags": f}), soft_deadline_s=300))
+    return ps
+
+
+def run_case(case: Dict[str, Any]) -> Outcome:  # type: ignore[no-redef]
+    if "flags" not in case:
+        return _run_core(case)
+    out = Outcome()
+    out.clauses_checked = ["C08.a"]
+    _cliwire.check(case["flags"], ['validate_params'], "C08.a", out)
+    out.nontrivial = any(case["flags"].get(k) not in (None, False) for k in case["flags"])
+    out.classes = ["cli_wiring"]
+    return out
